@@ -462,7 +462,7 @@ func genC10Routes(w *World, r *Rng, tier string) {
 	}
 	defer func() { chanViewMode = 0 }()
 	for rep := 0; rep < reps; rep++ {
-		for route := 0; route < 11; route++ {
+		for route := 0; route < 12; route++ {
 			k := r.Kind()
 			ch := r.Range(1, 3)
 			K := r.Range(2, 5)
@@ -534,6 +534,23 @@ func genC10Routes(w *World, r *Rng, tier string) {
 					w.Write(win, k, mixVals(r, k, w.views[win].Len()))
 					w.Drop(win)
 				}
+			case 11:
+				// the caller keeps only a WINDOW of the buffer and drops the buffer itself (never put back); after
+				// a collection the window still reads what was written, and the pool hands out other storage
+				win := w.Slice(g, 0, K)
+				if win >= 0 {
+					w.Write(win, k, mixVals(r, k, w.views[win].Len()))
+					w.Drop(g)
+					w.GC()
+					w.GC()
+					g2 := w.PGet(p)
+					if g2 >= 0 {
+						w.Write(g2, k, mixVals(r, k, w.views[g2].Len()))
+					}
+					w.GC()
+					w.PGet(p)
+				}
+				continue
 			case 10: // single-sample appends through a window at the end of the length
 				win := w.Slice(g, b.Length(), b.Length())
 				if win >= 0 {
@@ -885,12 +902,14 @@ func genGrowMany(g *Kern, r *Rng, tier string) {
 
 // genBulkPool: a hundred buffers of one pool held at the same time, stamped, verified, put back, for several rounds
 // (more than 256 puts): buffers held together never share storage and every one is fresh when handed out (C10)
-func genBulkPool(g *Kern, r *Rng, tier string) {
+func genBulkPool(g *Kern, r *Rng, tier string) { genBulkPoolFor(g, r, tier, "C10") }
+
+func genBulkPoolFor(g *Kern, r *Rng, tier string, props string) {
 	rounds := 6
 	if tier == "thorough" {
 		rounds = 30
 	}
-	for _, held := range []int{70, 100, 130} {
+	for _, held := range []int{70, 100, 130, 4097, 5000} {
 		bad := ""
 		label := fmt.Sprintf("kind=i32 ch=2 L=1 K=3 held=%d rounds=%d", held, rounds)
 		p := try(func() {
@@ -927,7 +946,7 @@ func genBulkPool(g *Kern, r *Rng, tier string) {
 		if p != "" {
 			bad = "panic=" + strings.ReplaceAll(p, " ", "_")
 		}
-		g.goref("C10", "bulk-pool", strings.ReplaceAll(bad, " ", "_"), label)
+		g.goref(props, "bulk-pool", strings.ReplaceAll(bad, " ", "_"), label)
 	}
 }
 
@@ -966,4 +985,39 @@ func genLocalTypes(g *Kern) {
 		bad = "panic=" + strings.ReplaceAll(p, " ", "_")
 	}
 	g.goref("C13", "same-named-local-types", strings.ReplaceAll(bad, " ", "_"), "types=sample(int16),sample(float64),sample(uint8)")
+}
+
+// genStripedWide: striped writes and reads on buffers with 33 .. 257 channels (bit masks over the rows are 32 or 64
+// bits wide), short and nil rows at low, middle and the highest channel indices, over stale data
+func genStripedWide(w *World, r *Rng, tier string) {
+	chs := []int{33, 40, 64, 65, 70, 129}
+	if tier == "thorough" {
+		chs = append(chs, 100, 128, 257)
+	}
+	for ci, ch := range chs {
+		k := r.Kind()
+		fr := 3
+		w.Case(fmt.Sprintf("C01 striped-wide %s ch%d fr%d", k, ch, fr))
+		b := w.Alloc(k, false, ch, fr, fr)
+		fillAll(w, b, ci+5)
+		cols := make([][]uint64, ch)
+		for c := range cols {
+			cols[c] = mixVals(r, k, fr)
+		}
+		// short / nil rows: one below 32, one in [32,64), one at 64 or above (if any), the last one
+		for _, c := range []int{5, 35, 66, ch - 1, ch - 2} {
+			if c >= 0 && c < ch {
+				switch (c + ci) % 3 {
+				case 0:
+					cols[c] = nil
+				case 1:
+					cols[c] = cols[c][:1]
+				default:
+					cols[c] = []uint64{}
+				}
+			}
+		}
+		w.WriteStriped(b, k, cols)
+		w.ReadStriped(b, k, cols)
+	}
 }
